@@ -252,14 +252,29 @@ def float_optimize(cfg, env, points=None, K=2, pick=None):
         with warnings.catch_warnings():
             warnings.simplefilter("ignore")
             scheme = pl.build_scheme(cfg, src)
-            x0 = scheme.parameters.get_label_value_and_bounds_arrays(exclude_non_vary=True)[1]
+            _, x0, lb_, ub_ = scheme.parameters.get_label_value_and_bounds_arrays(exclude_non_vary=True)
             pts = points or [np.asarray(x0, dtype=float) * (1.0 + 0.05 * (k + 1)) for k in range(K - 1)]
+            if not points and pts:
+                # the last point sits on a bound where there is one (scipy then reports it in active_mask)
+                last = np.minimum(np.maximum(pts[-1], np.asarray(lb_, dtype=float)), np.asarray(ub_, dtype=float))
+                for i_ in range(len(last)):
+                    if np.isfinite(lb_[i_]):
+                        last[i_] = lb_[i_]
+                        break
+                    if np.isfinite(ub_[i_]):
+                        last[i_] = ub_[i_]
+                        break
+                pts[-1] = last
             ls = optim.AdversarialLeastSquares(None, K=K, symbolic=False, points=pts, pick=pick)
             with Patcher() as p2:
                 optim.install_optimizer_stubs(p2, None, src, ls, None)
                 opt = Optimizer(scheme, verbose=False)
-                opt.optimize()
-                res = opt.create_result()
+                pl.FAULT_HOOK["opt"] = opt  # lets a matrix-evaluation hook look at the optimizer's current parameters
+                try:
+                    opt.optimize()
+                    res = opt.create_result()
+                finally:
+                    pl.FAULT_HOOK.pop("opt", None)
     return res, ls
 
 
